@@ -1,6 +1,6 @@
 """Growth beyond the listed properties (DESIGN.md section 11): specifications of further behaviour of the library,
 model-checked and replayed into the code like the property checks, but *not* registered in MANIFEST.json (no
-listed property owns their verdicts).  usage: python -m harness.growth [lifecycle] [chainqueries] [modeview] [amptree] [decwarnings] [syntaxneg]"""
+listed property owns their verdicts).  usage: python -m harness.growth [lifecycle] [chainqueries] [modeview] [finalstate] [amptree] [decwarnings] [syntaxneg]"""
 from __future__ import annotations
 
 import io
@@ -288,6 +288,106 @@ def modeview(maxds=3, maxextras=3):
                 print("  MACHINERY: reordered extra lines accepted")
                 return 2
             print("  binding self test: reordered extra lines rejected")
+    finally:
+        tlc.cleanup(wd)
+    return rc
+
+
+# ---------------------------------------------------------------------------------------------- FinalState
+_FS_NAMES = [{"p": "K+", "pb": "K-", "s": "pi0"}, {"p": "D0", "pb": "anti-D0", "s": "gamma"}, {"p": "anti-B0", "pb": "B0", "s": "K_S0"},
+             {"p": "Lambda_c+", "pb": "anti-Lambda_c-", "s": "J/psi"}, {"p": "nu_tau", "pb": "anti-nu_tau", "s": "eta'"}]
+
+
+def _fs_replay(args):
+    import copy
+    from decaylanguage import DaughtersDict
+    cid, beh = args
+    nm = _FS_NAMES[cid % len(_FS_NAMES)]
+    back = {v: k for k, v in nm.items()}
+
+    def make(bag, form):
+        flat = [nm[k] for k in ("p", "pb", "s") for _ in range(bag[k])]
+        return [DaughtersDict(flat), DaughtersDict(" ".join(flat)), DaughtersDict({nm[k]: bag[k] for k in bag})][form % 3]
+
+    def problems(x, bag, who):
+        out = []
+        want = sorted(nm[k] for k in bag for _ in range(bag[k]))
+        got = {back.get(k, "?" + k): v for k, v in x.items() if v > 0}
+        if got != {k: v for k, v in bag.items() if v > 0}:
+            out.append(f"{who}: content {got}")
+        if x.to_list() != want or x.to_string() != " ".join(want):
+            out.append(f"{who}: to_list {x.to_list()} / to_string {x.to_string()!r}, expected {want}")
+        if len(x) != len(want):
+            out.append(f"{who}: len {len(x)}, expected {len(want)}")
+        it = list(x)
+        if sorted(it) != want or any(it[i] == it[j] and any(it[k] != it[i] for k in range(i, j)) for i in range(len(it)) for j in range(i, len(it))):
+            out.append(f"{who}: iteration {it}")
+        if not (x == DaughtersDict(want)) or (want and x == DaughtersDict(want[:-1])):
+            out.append(f"{who}: equality with a fresh object of the same / another content")
+        return out
+    a, b = make(beh["init"]["r1"], cid), make(beh["init"]["r2"], cid + 1)
+    for i, st in enumerate(beh["hist"]):
+        op = st["op"]
+        if op == "add_new":
+            a = a + b
+        elif op == "add_in_place":
+            a += b
+        elif op == "inc":
+            a[nm[st["arg"]]] += 1
+        elif op == "conj_new":
+            a = a.charge_conjugate()
+        elif op == "alias":
+            b = a
+        elif op == "copy":
+            b = [DaughtersDict(a), copy.copy(a), copy.deepcopy(a), a.copy()][(cid + i) % 4]
+        elif op == "swap":
+            a, b = b, a
+        bad = problems(a, st["r1"], "r1") + problems(b, st["r2"], "r2")
+        if (a is b) != st["alias"]:
+            bad.append(f"identity: a is b = {a is b}, expected {st['alias']}")
+        if type(a).__name__ != "DaughtersDict" or type(b).__name__ != "DaughtersDict":
+            bad.append(f"types {type(a).__name__} / {type(b).__name__}")
+        if bad:
+            return {"cid": cid, "step": i, "op": op, "history": [s_["op"] + (":" + s_["arg"] if s_["arg"] else "") for s_ in beh["hist"][: i + 1]],
+                    "problems": bad[:4]}
+    return None
+
+
+def finalstate(maxlen=4):
+    ensure_repo_on_path()
+    from .core import pmap
+    wd = tlc.new_workdir("fst")
+    rc = 0
+    try:
+        cfg = tlc.cfg_text(constants=dict(MaxLen=maxlen, MaxCount=6), invariants=["TypeOK", "AliasMeansEqual", "ConjLaws", "AddLaws"],
+                           properties=["OtherUntouched"])
+        r = tlc.run("FinalState", cfg, workdir=wd)
+        behs = [x["v"] for x in r.by_tag("beh")]
+        print(f"FinalState MaxLen={maxlen}: {r.distinct} states, {len(behs)} behaviours, violated={r.violated}")
+        if r.violated:
+            rc = 1
+        r2 = tlc.run("FinalState", tlc.cfg_text(constants=dict(MaxLen=3, MaxCount=6), invariants=["NeverSelfAdd"]), workdir=wd,
+                     keep_records=False)
+        if "NeverSelfAdd" not in r2.violated:
+            print("  MACHINERY: an object added to itself is never reached")
+            return 2
+        if len(behs) > 40000:
+            step = len(behs) // 40000 + 1
+            behs = behs[::step]
+        bad = [x for x in pmap(_fs_replay, list(enumerate(behs)), chunk=200) if x]
+        print(f"finalstate: {len(behs)} behaviours replayed on real DaughtersDict objects, {len(bad)} disagreement(s)")
+        for x in bad[:5]:
+            print("  DISAGREEMENT", json.dumps(x))
+        if bad:
+            rc = 1
+        # binding self test: a behaviour whose expected content is corrupted must be reported
+        if behs and not bad:
+            m = json.loads(json.dumps(behs[0]))
+            m["hist"][-1]["r1"]["s"] += 1
+            if _fs_replay((0, m)) is None:
+                print("  MACHINERY: corrupted expectation accepted")
+                return 2
+            print("  binding self test: corrupted expectation reported")
     finally:
         tlc.cleanup(wd)
     return rc
@@ -729,8 +829,8 @@ def syntaxneg(maxedits=2):
 
 
 if __name__ == "__main__":
-    which = sys.argv[1:] or ["lifecycle", "chainqueries", "modeview", "amptree", "decwarnings", "syntaxneg"]
+    which = sys.argv[1:] or ["lifecycle", "chainqueries", "modeview", "finalstate", "amptree", "decwarnings", "syntaxneg"]
     rc = 0
     for w in which:
-        rc |= {"lifecycle": lifecycle, "chainqueries": chainqueries, "modeview": modeview, "amptree": amptree, "decwarnings": decwarnings, "syntaxneg": syntaxneg}[w]()
+        rc |= {"lifecycle": lifecycle, "chainqueries": chainqueries, "modeview": modeview, "finalstate": finalstate, "amptree": amptree, "decwarnings": decwarnings, "syntaxneg": syntaxneg}[w]()
     sys.exit(rc)
